@@ -295,3 +295,13 @@ for _c in ("Euler3D", "GillespieGraph"):
 for _c in ("Euler3D", "TauLeapGraph"):
     CASES.append(finalize_case(_c, False))
     CASES.append(finalize_case(_c, True))
+
+
+# The ABI precondition of the native entry points (buffer lengths, index ranges) is established by the Python seam:
+# the seam cases of C04 (lengths of every marshalled array, length of the trajectory / time buffers handed to
+# engineexport_get_trajectory / get_tsample against the engine's sample count) are part of this check as well.
+from props import C04 as _C04
+for _sp in ("grid", "graph"):
+    CASES.append(_C04.marshal_case(_sp, False))
+CASES.append(_C04.unmarshal_case(False))
+CASES.append(_C04.unmarshal_case(True))
